@@ -80,6 +80,11 @@ class BuiltinMixin:
         g = gens[k]
         src = self.ev(g.iter, path)
         src = self.iterable(src, path)
+        if isinstance(src, VElemList):
+            conc = self.concretize_elemlist(src, path)
+            if conc is None:
+                raise OutOfReach('comprehension over document children whose number is not determined by the precondition')
+            src = conc
         if (k == len(gens) - 1 and not g.ifs and isinstance(g.target, ast.Name) and isinstance(elt, ast.Name)
                 and elt.id == g.target.id and isinstance(src, (VSeq, VHeapList))):
             # [x for x in xs] is xs itself
@@ -173,6 +178,30 @@ class BuiltinMixin:
         if isinstance(v, VSet):
             raise OutOfReach('iteration over a set (order unspecified)')
         raise OutOfReach(f'iteration over {v.kind}')
+
+    def concretize_elemlist(self, v, path, max_len=6):
+        """a cons list whose length is determined by the path condition (e.g. by an arity precondition) as an executor-level list:
+        is_nil / is_cons of each successive tail must be provable (axioms + path condition); None when it is not"""
+        L = self.ctx.sorts.ElemList
+
+        def provable(f):
+            s = z3.Solver()
+            s.set('timeout', 2000)
+            s.set('smt.mbqi', False)
+            for a in self.ctx.axioms:
+                s.add(a)
+            s.add(*path.pc)
+            s.add(z3.Not(f))
+            return s.check() == z3.unsat
+        items, cur = [], v.t
+        for _ in range(max_len + 1):
+            if provable(L.is_ENil(cur)):
+                return VList(items, ELEM)
+            if not provable(L.is_ECons(cur)):
+                return None
+            items.append(VElem(L.head(cur)))
+            cur = L.tail(cur)
+        return None
 
     # numeric folds over generator expressions ------------------------------------------------
     def gen_numeric(self, kind, gen, path):
